@@ -76,6 +76,10 @@ WORLDS = {
     'redef': dict(cfg={'p': 2, 'q': 0, 'r': 0}, wrapper=False, redef=True),
     'redef+w': dict(cfg={'p': 2, 'q': 0, 'r': 0}, wrapper=True, redef=True),
     # two different registered functions that share a __name__ (e.g. made by a factory)
+    # symbolic results pass the algebra's symbolic filter; a division that fails during generation runs before
+    'symfilter': dict(cfg={'p': 2, 'q': 0, 'r': 1}, wrapper=False, symf=True),
+    # state cached on the multivector objects themselves
+    'objstate': dict(cfg={'p': 2, 'q': 0, 'r': 0}, wrapper=False, obj=True),
     'samename': dict(cfg={'p': 2, 'q': 0, 'r': 0}, wrapper=False, samename=True),
     'samename+w': dict(cfg={'p': 2, 'q': 0, 'r': 0}, wrapper=True, samename=True),
     # d = 7: the blade table is filled lazily, so it is part of the history dependent state
@@ -119,6 +123,7 @@ def make_world(world_id):
         x5 = mv((3, 2, 1, 0), (0, 5, 3, 0))
         e = mv((3,), (1,))
         z = mv((3,), (0,))
+        nullb = mv((3,), (0,))
     else:
         # Algebra(2,0,1): e0=1 (null), e1=2, e2=4; canonical order (0,1,2,4,3,5,6,7), binary order differs
         x1 = mv((2, 4), (3, 5))
@@ -128,10 +133,12 @@ def make_world(world_id):
         x5 = mv((0, 1, 2, 3, 4, 5, 6, 7), (0, 0, 3, 0, 5, 0, 0, 0))
         e = mv((6,), (1,))
         z = mv((6,), (0,))
+        nullb = mv((1,), (2,))          # the null generator e0: no inverse, the division fails during generation
     import sympy
     s1 = alg.multivector(keys=x1.keys(), values=[sympy.Symbol('u1'), sympy.Symbol('u2')])
     s2 = alg.multivector(keys=x2.keys(), values=[sympy.Symbol('u2'), sympy.Symbol('u1')])
-    ctx = dict(alg=alg, other=other, x1=x1, x2=x2, x3=x3, x4=x4, x5=x5, e=e, z=z, s1=s1, s2=s2,
+    t1 = alg.multivector(keys=x1.keys(), values=[sympy.Symbol('u1') + sympy.Symbol('u2'), sympy.Symbol('u1') - sympy.Symbol('u2')])
+    ctx = dict(alg=alg, other=other, t1=t1, x1=x1, x2=x2, x3=x3, x4=x4, x5=x5, e=e, z=z, s1=s1, s2=s2, nullb=nullb,
                y=other.multivector(keys=(1,), values=[F(1)]))
 
     def f(a, b):
@@ -165,8 +172,9 @@ def make_world(world_id):
         def outer(a, b):
             return ctx['tw'][0](a, b) + b
         ctx['outer'] = alg.register(outer)
-    ctx['_operands'] = ['x1', 'x2', 'x3', 'x4', 'x5', 'e', 'z', 's1', 's2', 'y']
+    ctx['_operands'] = ['x1', 'x2', 'x3', 'x4', 'x5', 'e', 'z', 's1', 's2', 'y', 't1']
     ctx['_redef_world'] = bool(w.get('redef')) or bool(w.get('samename'))
+    ctx['_objworld'] = bool(w.get('obj'))
     return ctx
 
 
@@ -206,6 +214,20 @@ def _redef(c):
     return None
 
 
+SYMBOLS.update({
+    # division by a structurally singular operand: raises while the function is being generated
+    'divnull': lambda c: c['x1'] / c['nullb'],
+    # symbolic operands: the result goes through the symbolic filter (simp_func) of the algebra
+    'sym2': lambda c: c['s2'] * c['e'] - c['e'] * c['s2'],
+    'symsq': lambda c: (c['s1'] + c['s2']) * (c['s1'] + c['s2']),
+    'symt': lambda c: c['t1'] * c['t1'],            # coefficients that only the symbolic simplification brings into normal form
+    # state cached on multivector objects (issymbolic, free_symbols, the compiled callable) and map()
+    'calls2': lambda c: c['s2'](u1=F(3), u2=F(5)),
+    'mapsym': lambda c: c['s2'].map(lambda v: 2 * v)(u1=F(3), u2=F(5)),
+    'mapnum': lambda c: c['x2'].map(lambda v: v * __import__('sympy').Symbol('t')) * c['x2'],
+    'mapnum2': lambda c: c['x2'].map(lambda v: 2 * v) * c['e'],
+})
+OBJ_ALPHA = ['calls2', 'mapsym', 'mapnum', 'mapnum2', 'gp2', 'sym2']
 SYMBOLS['redef'] = _redef
 SYMBOLS['twinA'] = lambda c: c['tw'][0](c['x2'], c['e'])
 SYMBOLS['twinB'] = lambda c: c['tw'][1](c['x2'], c['e'])
@@ -238,6 +260,7 @@ SYMBOLS.update({
 LAZY_ALPHA = ['l_aB', 'l_Ba', 'l_eE', 'l_Ee', 'l_ipaT', 'l_ipTa', 'l_swB', 'l_f']
 PERM_ALPHA = [f'pg{i}' for i in range(6)] + ['pf2', 'pf3']
 QUICK = ['gp1', 'gp2', 'gp5', 'sw2', 'inv5', 'f2', 'sq5', 'div0']
+SYMF_ALPHA = ['divnull', 'sym2', 'symt', 'gp2', 'div0']
 THOROUGH = QUICK + ['g2', 'hs2', 'call2', 'add2', 'mix']
 _ALPHA = {'quick': QUICK, 'thorough': THOROUGH}
 _tier = ['quick']
@@ -253,6 +276,10 @@ def alphabet(world_id):
         return {n: SYMBOLS[n] for n in LAZY_ALPHA}
     if WORLDS[_wid(world_id)].get('samename'):
         return {n: SYMBOLS[n] for n in SAMENAME_ALPHA}
+    if WORLDS[_wid(world_id)].get('obj'):
+        return {n: SYMBOLS[n] for n in OBJ_ALPHA}
+    if WORLDS[_wid(world_id)].get('symf'):
+        return {n: SYMBOLS[n] for n in SYMF_ALPHA}
     return {n: SYMBOLS[n] for n in _ALPHA[tier]}
 
 
@@ -301,8 +328,11 @@ def abstraction(ctx):
             ents.append((nm, kin, tuple(kout), code_digest(fn)))
     ns = [(k, code_digest(v)) for k, v in alg.numspace.items() if k != '__builtins__']
     cached = [(n, code_digest(ctx[n].__dict__['_callable'][1])) for n in ctx['_operands'] if '_callable' in ctx[n].__dict__]
+    if ctx.get('_objworld'):
+        cached += [(n, 'props', tuple(sorted(k for k in ctx[n].__dict__ if k in ('issymbolic', 'free_symbols')))) for n in ctx['_operands']]
+    cached.append(('options', code_digest(alg.simp_func) if alg.simp_func else 'None', alg.cse, alg.graded, repr(alg.codegen_symbolcls)))
     lazy = tuple(sorted(alg.signs.items())) if alg.d > 6 else ()
-    return (tuple(sorted(ents)), tuple(sorted(ns)), tuple(sorted(cached)), code_digest(ctx['f_py']) if 'f_py' in ctx else '', lazy)
+    return (tuple(sorted(ents)), tuple(sorted(ns)), tuple(sorted(cached, key=repr)), code_digest(ctx['f_py']) if 'f_py' in ctx else '', lazy)
 
 
 def explore_expand(task):
@@ -333,6 +363,7 @@ def reference_check(world_id):
         'sq5': lambda: ref.gp(R('x5'), R('x5')), 'add2': lambda: Ref.add(R('x2'), R('e')), 'neg2': lambda: Ref.neg(R('x2')),
         'call2': lambda: ref.gp(R('x2'), R('e')), 'call1': lambda: ref.gp(R('x1'), R('e')),
     }
+    want.update({'calls2': lambda: R('x2'), 'mapnum2': lambda: ref.gp(Ref.scale(R('x2'), 2), R('e')), 'mapsym': lambda: Ref.scale(R('x2'), 2)})
     want.update({'l_aB': lambda: ref.gp(R('a'), R('B')), 'l_Ba': lambda: ref.gp(R('B'), R('a')), 'l_eE': lambda: ref.gp(R('e'), R('E')), 'l_Ee': lambda: ref.gp(R('E'), R('e')),
                  'l_ipaT': lambda: ref.ip(R('a'), R('T')), 'l_ipTa': lambda: ref.ip(R('T'), R('a')), 'l_swB': lambda: ref.sw(R('B'), R('a')),
                  'l_f': lambda: Ref.add(ref.gp(R('T'), R('a')), R('T'))})
@@ -498,7 +529,7 @@ def drive(ctx):
     # BFS over the large alphabet with whatever time is left (it stops at a level boundary and reports the cap)
     worlds = [f'{w}|quick' for w in WORLDS]
     if tier == 'thorough':
-        worlds += ['THREADS'] + [f'{w}|thorough' for w in WORLDS if not WORLDS[w].get('perm') and not WORLDS[w].get('redef') and not WORLDS[w].get('lazy') and not WORLDS[w].get('samename')]
+        worlds += ['THREADS'] + [f'{w}|thorough' for w in WORLDS if not WORLDS[w].get('perm') and not WORLDS[w].get('redef') and not WORLDS[w].get('lazy') and not WORLDS[w].get('samename') and not WORLDS[w].get('obj') and not WORLDS[w].get('symf')]
     samples = []
     threads_done = False
     for world_id in worlds:
